@@ -330,6 +330,10 @@ func (sfr *SegmentFileReader) readBlock(blockNum uint16) (bool, error) {
 		return false, ErrColumnNotInBlock
 	}
 	if err != nil {
+		// The failed attempt may have overwritten the buffers that the records of
+		// the block loaded before are served from (dictionary words are slices of
+		// currFileBuffer), so that block is no longer loaded.
+		sfr.isBlockLoaded = false
 		return true, ErrReadBlock
 	}
 
